@@ -92,6 +92,9 @@ TYPED = [
     ("Select", "lambda e: e.jets().Where(lambda j: j.pt() > 2).Select(lambda j: j.eta())"),
     ("Select", "lambda e: e.jets(name='fwd').Select(lambda j: j.eta(2))"),
     ("Select", "lambda e: e.met() + 1"),
+    ("Select", "lambda e: e.info['fork'](55)"),
+    ("Select", "lambda e: e.jets().Select(lambda j: j.pt() + e.info['a'](1))"),
+    ("Where", "lambda e: e.info['w'](2, 3) > 1"),
     ("Select", "lambda j: j.pt()"),
     ("Select", "lambda j: j.eta(b=2)"),
     ("Where", "lambda e: e.met() > 1"),
